@@ -170,3 +170,152 @@ func refParseBackendPrefix(target Protocol, codec string, comp bool, body []byte
 	}
 	return msgs, complete
 }
+
+// hC09Resp: arbitrary backend response bytes (every cut, every flag byte, symbolic lengths) followed by a
+// valid, missing or truncated end of stream. A faulty response never surfaces as success; a well-formed
+// one is delivered intact; the client always gets a terminated, valid response.
+func hC09Resp() {
+	cfg := &pipeCfg{maxMsg: 64, kind: fkBidi, clientCodec: CodecProto, svcCodecs: []string{CodecProto}}
+	cfg.client = []int{cfGRPC, cfGRPCWeb, cfConnectStream}[verifChoose("client", 3)]
+	cfg.svcProtos = []Protocol{pipeProtocols[verifChoose("target", 3)]}
+	if verifChoose("diffCodec", 2) == 1 {
+		cfg.svcCodecs = []string{CodecJSON}
+	}
+	if pipeIsPassThrough(cfg) {
+		return
+	}
+	p := newPipe(cfg)
+	if !p.buildOK {
+		return
+	}
+	target, codec, _ := refNegotiate(cfg)
+	maxN := 6
+	if verifTier() == 1 {
+		maxN = 10
+	}
+	n := verifChoose("streamLen", maxN+1)
+	data := symbolicStream("wire", n)
+	endMode := verifChoose("end", 3) // 0 valid end, 1 no end at all, 2 truncated end
+	var endFrame []byte
+	switch target {
+	case ProtocolGRPCWeb:
+		endFrame = appendFrame(nil, 0x80, []byte("grpc-status: 0\r\n"))
+	case ProtocolConnect:
+		endFrame = appendFrame(nil, 2, []byte("{}"))
+	}
+	if endMode == 2 && len(endFrame) > 0 {
+		endFrame = endFrame[:verifChoose("endCut", len(endFrame)-1)+1]
+	}
+	p.tr.methods[pipePath].handler = http.HandlerFunc(func(w http.ResponseWriter, r *http.Request) {
+		readAllSized(r.Body, 16, 100)
+		w.Header().Set("Content-Type", p.backendContentType())
+		w.WriteHeader(200)
+		if len(data) > 3 {
+			w.Write(data[:3])
+			w.Write(data[3:])
+		} else {
+			w.Write(data)
+		}
+		if target == ProtocolGRPC {
+			if endMode == 0 {
+				w.Header().Set(http.TrailerPrefix+"Grpc-Status", "0")
+			}
+			return
+		}
+		if endMode != 1 {
+			w.Write(endFrame)
+		}
+	})
+	p.serve([]wireMsg{{abstract: []byte{'q'}}})
+	out := refParseClientResponse(cfg, p.sink, true)
+	// reference: what a client of the backend's protocol would make of the bytes actually written
+	full := append([]byte(nil), data...)
+	if target != ProtocolGRPC && endMode != 1 {
+		full = append(full, endFrame...)
+	}
+	frames, complete := refSplitFrames(full)
+	endFlag := byte(0xff)
+	switch target {
+	case ProtocolGRPCWeb:
+		endFlag = 0x80
+	case ProtocolConnect:
+		endFlag = 2
+	}
+	wellFormed := complete
+	grey := false
+	sawEnd := false
+	var sent [][]byte
+	for i, f := range frames {
+		switch {
+		case f.flags == 0 && !sawEnd:
+			m, ok := refDecodeMsg(codec, false, f.payload)
+			if !ok {
+				wellFormed = false
+			} else {
+				sent = append(sent, m)
+			}
+		case f.flags == endFlag && !sawEnd && i == len(frames)-1 && endMode == 0 && len(frames) > 0:
+			sawEnd = true
+			// the end frame must be the one we appended (symbolic bytes imitating an end frame are grey)
+			if len(full)-len(endFrame) != len(full)-5-len(f.payload) {
+				grey = true
+			}
+		case f.flags == 1 || f.flags == 0x81 || f.flags == 3 || f.flags == endFlag:
+			grey = true // compressed flag without declaration / end-like frame made of symbolic bytes: not asserted
+			wellFormed = false
+		default:
+			wellFormed = false
+		}
+	}
+	if target == ProtocolGRPC {
+		wellFormed = wellFormed && endMode == 0
+	} else {
+		wellFormed = wellFormed && sawEnd
+	}
+	verifObsInt("client-code", int64(out.code))
+	verifObsStr("resp-oracle-why", out.why)
+	verifObsStr("resp-grpc-status-trailer", p.sink.trailers().Get("Grpc-Status"))
+	verifObsStr("resp-grpc-status-header", p.sink.headSnap.Get("Grpc-Status"))
+	verifObsInt("resp-msgs", int64(len(out.msgs)))
+	verifObsInt("resp-status", int64(p.sink.status))
+	verifObsBytes("client-body-on-success", func() []byte {
+		if out.valid && out.code == 0 {
+			return p.sink.body
+		}
+		return nil
+	}())
+	verifReach("served")
+	if grey {
+		verifReach("grey-response-bytes")
+		return
+	}
+	if !complete && !out.valid {
+		// the backend stopped inside a message whose envelope had already been forwarded: a streaming
+		// re-framer can only cut the stream; the client then sees a truncated frame (and, for gRPC, an
+		// error status in the trailers)
+		verifReach("truncated-frame-forwarded")
+		if cfg.client == cfGRPC {
+			st := p.sink.trailers().Get("Grpc-Status")
+			verifAssert(st != "" && st != "0", "C09: a truncated response ends with an error status")
+		}
+		return
+	}
+	verifAssert(out.valid, "C09: the client gets a terminated, well-formed response")
+	if !out.valid {
+		return
+	}
+	if wellFormed {
+		verifReach("clean-response")
+		verifAssert(out.code == 0, "C09: a well-formed response is not turned into an error")
+		verifAssert(len(out.msgs) == len(sent), "C09: every response message is delivered")
+		for i := range out.msgs {
+			if i < len(sent) {
+				verifAssert(bytesEq(out.msgs[i], sent[i]), "C09: response messages are delivered intact")
+			}
+		}
+	} else {
+		verifReach("faulty-response")
+		verifAssert(out.code != 0, "C09: a truncated or malformed response never surfaces as success")
+		verifAssert(len(out.msgs) <= len(frames), "C09: no message is fabricated from partial data")
+	}
+}
